@@ -214,7 +214,7 @@ def run(chk: core.Check, tier: str, seed: int) -> None:
         if exs:
             # subjects built alongside the pattern: every example, and the last one with something around it
             ex = exs[-1]
-            subs = list(dict.fromkeys([e[:14] for e in exs[:12]] + [ex[:14], "q" + ex[:13], ex[:13] + "\n", ex[:-1][:14], (ex + ex)[:16]])) + subs[:8]
+            subs = list(dict.fromkeys([e[:14] for e in exs[:30]] + [ex[:14], "q" + ex[:13], ex[:13] + "\n", ex[:-1][:14], (ex + ex)[:16]])) + subs[:8]
         subs = subs + [1, None, True, ["a"], {"a": "a"}]
         doc = {"s": subs, "p": p}
         try:
